@@ -587,7 +587,7 @@ static void dump_opt(cfg_opt_t *o, int mode)
 {
 	unsigned int i, n = cfg_opt_size(o);
 	static const char tc[] = "?ifsbSFpc";
-	enc(out, o->name);
+	enc(out, cfg_opt_name(o));
 	fprintf(out, "=%c%s[%u]", tc[o->type], (o->flags & CFGF_LIST) ? "L" : "", n);
 	if ((mode & DM_MOD) && (o->flags & CFGF_MODIFIED) && !((mode & DM_NOSECMOD) && o->type == CFGT_SEC)) fputc('M', out);
 	if ((mode & DM_RESET) && (o->flags & CFGF_RESET)) fputc('R', out);
@@ -1013,10 +1013,10 @@ static void do_op(char **t, int ntok)
 		unsigned idx;
 		NEED(5); SEC(t[1]); s1 = dec(t[2], NULL); idx = (unsigned)strtoul(t[4], NULL, 0);
 		/* evaluate first: the getter may emit diagnostics */
-		if (!strcmp(t[3], "int")) { long v = cfg_getnint(sec, s1, idx); fprintf(out, "r get %ld", v); }
-		else if (!strcmp(t[3], "float")) { double v = cfg_getnfloat(sec, s1, idx); fprintf(out, "r get %.17g", v); }
-		else if (!strcmp(t[3], "bool")) { int v = (int)cfg_getnbool(sec, s1, idx); fprintf(out, "r get %d", v); }
-		else if (!strcmp(t[3], "str")) { char *v = cfg_getnstr(sec, s1, idx); fprintf(out, "r get "); enc(out, v); }
+		if (!strcmp(t[3], "int")) { long v = idx ? cfg_getnint(sec, s1, idx) : cfg_getint(sec, s1); fprintf(out, "r get %ld", v); }
+		else if (!strcmp(t[3], "float")) { double v = idx ? cfg_getnfloat(sec, s1, idx) : cfg_getfloat(sec, s1); fprintf(out, "r get %.17g", v); }
+		else if (!strcmp(t[3], "bool")) { int v = (int)(idx ? cfg_getnbool(sec, s1, idx) : cfg_getbool(sec, s1)); fprintf(out, "r get %d", v); }
+		else if (!strcmp(t[3], "str")) { char *v = idx ? cfg_getnstr(sec, s1, idx) : cfg_getstr(sec, s1); fprintf(out, "r get "); enc(out, v); }
 		else if (!strcmp(t[3], "ptr")) { struct pv *v = idx ? cfg_getnptr(sec, s1, idx) : cfg_getptr(sec, s1); fprintf(out, "r get "); enc(out, v ? v->text : NULL); }
 		else if (!strcmp(t[3], "size")) { unsigned v = cfg_size(sec, s1); fprintf(out, "r get %u", v); }
 		else if (!strcmp(t[3], "comment")) { char *v = cfg_getcomment(sec, s1); fprintf(out, "r get "); enc(out, v); }
